@@ -311,7 +311,6 @@ nni_epoll_pq_create(nni_posix_pollq *pq)
 	nni_mtx_init(&pq->mtx);
 	nni_cv_init(&pq->cv, &pq->mtx);
 	pq->epfd = -1;
-	pq->init = true;
 
 #if NNG_HAVE_EPOLL_CREATE1
 	if ((pq->epfd = epoll_create1(EPOLL_CLOEXEC)) < 0) {
@@ -341,6 +340,9 @@ nni_epoll_pq_create(nni_posix_pollq *pq)
 	}
 	nni_thr_set_name(&pq->thr, "nng:poll:epoll");
 	nni_thr_run(&pq->thr);
+	// (only now is there anything for nni_epoll_pq_destroy to undo: the
+	// failure paths above have released what they made)
+	pq->init = true;
 	return (0);
 }
 
